@@ -162,6 +162,21 @@ func main() {
 		os.Exit(cmdVC(os.Args[2:]))
 	case "list":
 		os.Exit(cmdList(os.Args[2:]))
+	case "frame":
+		c, err := newCtx("/repo", "/verif")
+		if err != nil {
+			fmt.Fprintln(os.Stderr, err)
+			os.Exit(2)
+		}
+		for _, k := range os.Args[2:] {
+			fn := c.fnByKey(k)
+			if fn == nil {
+				fmt.Println(k, ": no such function")
+				continue
+			}
+			fmt.Println(k, ":", strings.Join(c.Frames.modsOf(fn), " "))
+		}
+		os.Exit(0)
 	}
 	fmt.Fprintln(os.Stderr, "unknown command")
 	os.Exit(2)
